@@ -179,18 +179,22 @@ def build(sig):
 
 
 def fingerprint(parser):
+    """structural fingerprint of everything a parse could modify by accident (public attributes; private ones only
+    when present, so that a renamed private helper does not break the harness)"""
     def afp(a):
-        return (tuple(a.names), getattr(a.kind, "__name__", str(a.kind)), repr(a.default), repr(a.raw_value), repr(a._value),
-                a.positional, a.optional, a.incrementable, a.attr_name)
+        return (tuple(a.names), getattr(a.kind, "__name__", str(a.kind)), repr(a.default), repr(a.raw_value), repr(a.value),
+                repr(getattr(a, "_value", None)), a.positional, a.optional, a.incrementable, a.attr_name)
+
+    def lex(d):
+        return (tuple(d.keys()), tuple(sorted(getattr(d, "aliases", {}).items())))
 
     def cfp(c):
         if c is None:
             return None
-        return (c.name, tuple(c.aliases), tuple((k, afp(a)) for k, a in c.args.items()), tuple(sorted(c.args.aliases.items())),
-                tuple(c.flags.keys()), tuple(sorted(c.flags.aliases.items())), tuple(sorted(c.inverse_flags.items())),
-                tuple(afp(a) for a in c.positional_args))
+        return (c.name, tuple(c.aliases), tuple((k, afp(a)) for k, a in c.args.items()), lex(c.args), lex(c.flags),
+                tuple(sorted(c.inverse_flags.items())), tuple(afp(a) for a in c.positional_args))
     cs = parser.contexts
-    return (cfp(parser.initial), tuple((k, cfp(c)) for k, c in cs.items()), tuple(sorted(cs.aliases.items())), parser.ignore_unknown)
+    return (cfp(parser.initial), tuple((k, cfp(c)) for k, c in cs.items()), lex(cs), parser.ignore_unknown)
 
 
 def impl_parse(parser, argv):
